@@ -112,6 +112,51 @@ def build(shape, ftypes, targets, marks, salt=0, ctx='alone', sspell=(0, 0)):
                 expect='accept', run=True, depth=depth)
 
 
+def zoo(tier):
+    """targets and bystanders of different syntactic kinds: `Into(Z)` must find the unique field declared as Z (or the marked one), a field of type Z next to
+    the designated field must not disturb the lookup"""
+    from .common import ZOO, ZOO_PRE
+    out = []
+    for zid, zty, zvals in ZOO:
+        if zid in ('array0', 'unit', 'phantom'):
+            zv = zvals[0]
+        else:
+            zv = zvals[1]
+        for kind in ('sn', 'st', 'en'):
+            for mode in ('bytype', 'marked', 'bystander', 'sole'):
+                if mode == 'bytype' and zty in ('u8', 'u16'):
+                    continue
+                tgt = 'u16' if mode == 'bystander' else zty
+                mz = '#[educe(Into(%s))] ' % zty if mode == 'marked' else ''
+                mb = ''
+                if mode == 'marked':
+                    fields = [('a', zty, zvals[0]), ('z', zty, zv), ('b', 'u16', '7u16')]     # two fields of the target's type: the marker decides
+                elif mode == 'sole':
+                    fields = [('z', zty, zv)]
+                else:
+                    fields = [('a', 'u8', '3u8'), ('z', zty, zv), ('b', 'u16', '7u16')]
+                want = '7u16' if mode == 'bystander' else zv
+                if kind == 'sn':
+                    decl = 'pub struct Ty { %s }' % ', '.join('%spub %s: %s' % (mz if n == 'z' else '', n, t) for n, t, _ in fields)
+                    val = 'Ty { %s }' % ', '.join('%s: %s' % (n, v) for n, _, v in fields)
+                    vals = [val]
+                elif kind == 'st':
+                    decl = 'pub struct Ty(%s);' % ', '.join('%spub %s' % (mz if n == 'z' else '', t) for n, t, _ in fields)
+                    vals = ['Ty(%s)' % ', '.join(v for _, _, v in fields)]
+                else:
+                    decl = 'pub enum Ty { A(%s), B { %s } }' % (', '.join('%s%s' % (mz if n == 'z' else '', t) for n, t, _ in fields),
+                                                             ', '.join('%s%s: %s' % (mz if n == 'z' else '', n, t) for n, t, _ in reversed(fields)))
+                    vals = ['Ty::A(%s)' % ', '.join(v for _, _, v in fields), 'Ty::B { %s }' % ', '.join('%s: %s' % (n, v) for n, _, v in fields)]
+                src = ZOO_PRE + '#[derive(Educe)]\n#[educe(Into(%s))]\n%s\n' % (tgt, decl)
+                body = ''
+                for k, v in enumerate(vals):
+                    body += '    {\n        let x = %s;\n        let y: %s = x.into();\n        let want: %s = %s;\n' % (v, tgt, tgt, want)
+                    body += '        r.ck(y == want, %d, &|| "into() does not return the designated field".to_string());\n    }\n' % k
+                src += 'pub fn check(r: &mut Rep) {\n%s}\n' % body
+                out.append(Case('C10|zoo|%s|%s|%s' % (zid, kind, mode), src, {'target': tgt, 'field_type': zty, 'mode': mode}, expect='accept', run=True, depth=1))
+    return out
+
+
 def mark_sets(n, targets, maxmarks):
     singles = [((fi, t), m) for fi in range(n) for t in targets for m in (False, True)]
     yield {}
@@ -219,6 +264,7 @@ def generate(tier):
                                           [marks] if sh.kind == 'struct' else [marks, {}], salt, sspell=sspell)
                                 if c:
                                     cases.append(c)
+    cases += zoo(tier)
     # field names that differ by the prefixes the templates use for their bindings (x, _x, __x, ...), and raw identifiers
     from .common import underscorify, rawify
     named = [x for x in cases if ':n' in x.key or '|n' in x.key]
